@@ -100,10 +100,23 @@ def batcherIterGo (b : Nat) : List Int → List Int → List (List Int)
 
 def batcherIter (data : List Int) (b : Nat) : List (List Int) := batcherIterGo b [] data
 
+/-- `BatcherIter.__iter__` on a tuple of two iterables: `zip` stops with the shortest one, both accumulators grow in
+lock-step, a batch is yielded when the first reaches `b` -/
+def batcherIterPairGo (b : Nat) : List Int → List Int → List (Int × Int) → List (List Int × List Int)
+  | a1, a2, [] => if a1.length > 0 then [(a1, a2)] else []
+  | a1, a2, (x, y) :: r =>
+    let a1' := a1 ++ [x]
+    let a2' := a2 ++ [y]
+    if a1'.length = b then (a1', a2') :: batcherIterPairGo b [] [] r else batcherIterPairGo b a1' a2' r
+
+def batcherIterPair (xs ys : List Int) (b : Nat) : List (List Int × List Int) :=
+  batcherIterPairGo b [] [] (xs.zip ys)
+
 /-! ## sorted_combinations and the min-combination search (C17) -/
 
-/-- queue entry `(key, len(comb), comb, index)`; `comb` holds element *indices* (the elements are `range(n)` in the
-anchored call; for other elements the order of tuples in the queue is that of the elements) -/
+/-- queue entry `(key, len(comb), comb, index)`; `comb` holds element *indices*; the queue orders the tuples by the element
+*values* (`val i` is the value of the element at index `i`: `val = id` for the anchored call on `range(n)`, any list with
+repeats for a direct call) -/
 structure Entry where
   key  : Nat
   comb : List Nat
@@ -116,36 +129,45 @@ def lexLt : List Nat → List Nat → Bool
   | _ :: _, [] => false
   | a :: as, b :: bs => a < b || (a == b && lexLt as bs)
 
-/-- Python tuple order on `(key, len, comb, index)` -/
-def Entry.lt (a b : Entry) : Bool :=
+/-- Python tuple order on `(key, len, comb, index)`, the combination compared through its element values -/
+def Entry.lt (val : Nat → Nat) (a b : Entry) : Bool :=
   a.key < b.key || (a.key == b.key &&
     (a.comb.length < b.comb.length || (a.comb.length == b.comb.length &&
-      (lexLt a.comb b.comb || (a.comb == b.comb && a.idx < b.idx)))))
+      (lexLt (a.comb.map val) (b.comb.map val) || (a.comb.map val == b.comb.map val && a.idx < b.idx)))))
 
 /-- `heapq.heappop`: removes and returns the smallest entry -/
-def popMin : List Entry → Option (Entry × List Entry)
+def popMin (val : Nat → Nat) : List Entry → Option (Entry × List Entry)
   | [] => none
   | e :: r =>
-    match popMin r with
+    match popMin val r with
     | none => some (e, [])
-    | some (m, r') => if e.lt m then some (e, r) else some (m, e :: r')
+    | some (m, r') => if e.lt val m then some (e, r) else some (m, e :: r')
 
 def scoreSum (scores : List Nat) (comb : List Nat) : Nat := (comb.map (fun i => scores.getD i 0)).sum
 
-/-- the loop of `sorted_combinations(range(n), key=score sum, yield_key=True)` with fuel -/
-def combosLoop (scores : List Nat) (n : Nat) : Nat → List Entry → List (List Nat × Nat)
+/-- the loop of `sorted_combinations(elements, key=score sum, yield_key=True)` with fuel; `n = len(elements)` -/
+def combosLoop (val : Nat → Nat) (scores : List Nat) (n : Nat) : Nat → List Entry → List (List Nat × Nat)
   | 0, _ => []
   | fuel + 1, q =>
-    match popMin q with
+    match popMin val q with
     | none => []
     | some (e, q') =>
       let ext := (List.range' (e.idx + 1) (n - (e.idx + 1))).map
         (fun i => { key := scoreSum scores (e.comb ++ [i]), comb := e.comb ++ [i], idx := i : Entry })
-      (e.comb, e.key) :: combosLoop scores n fuel (q' ++ ext)
+      (e.comb, e.key) :: combosLoop val scores n fuel (q' ++ ext)
 
-def sortedCombinations (scores : List Nat) : List (List Nat × Nat) :=
+/-- `sorted_combinations` over elements with values `val 0 … val (n-1)` and the key "sum of the scores of the members" -/
+def sortedCombinationsV (val : Nat → Nat) (scores : List Nat) : List (List Nat × Nat) :=
   let n := scores.length
-  combosLoop scores n (2 ^ n) ((List.range n).map (fun i => { key := scoreSum scores [i], comb := [i], idx := i : Entry }))
+  combosLoop val scores n (2 ^ n) ((List.range n).map (fun i => { key := scoreSum scores [i], comb := [i], idx := i : Entry }))
+
+/-- the anchored call: elements are `range(n)` -/
+def sortedCombinations (scores : List Nat) : List (List Nat × Nat) := sortedCombinationsV (fun i => i) scores
+
+/-- a direct call `sorted_combinations(elems, key=sum)`: the elements are their own scores (repeats allowed); the yielded
+tuples hold element values -/
+def sortedCombinationsE (elems : List Nat) : List (List Nat × Nat) :=
+  (sortedCombinationsV (fun i => elems.getD i 0) elems).map (fun p => (p.1.map (fun i => elems.getD i 0), p.2))
 
 /-- the scan of `min_combinations_in_interval_iter_sorted` over the sorted stream -/
 def minCombScan (iStart iEnd : Int) : List (List Nat × Nat) → List (List Nat × Nat) → List (List Nat × Nat)
